@@ -182,7 +182,7 @@ def extract_fn(item, opts, blocks, rewrites_log, as_stub=False):
         # body replaced entirely; caller handles
         pass
     if sig.strip():
-        edits.append((bs, bs, '\n' + G('sig', '\n' + sig.rstrip() + '\n') + '\n'))
+        edits.append((bs, bs, G('sig', '\n' + sig.rstrip() + '\n')))
 
     if as_stub:
         be = tk(bodye)[3]
@@ -246,7 +246,7 @@ def extract_fn(item, opts, blocks, rewrites_log, as_stub=False):
     start = blocks.get('start', '')
     if start.strip():
         pos = tk(bodyp)[3]
-        edits.append((pos, pos, '\n' + G('start', '\n' + start.rstrip() + '\n')))
+        edits.append((pos, pos, G('start', '\n' + start.rstrip() + '\n')))
     # loops by ordinal
     loops = []
     p = bodyp + 1
@@ -265,12 +265,21 @@ def extract_fn(item, opts, blocks, rewrites_log, as_stub=False):
             loops.append((p, q))
         p += 1
     for key, gtxt in blocks.items():
-        if key.startswith('loop '):
+        if key.startswith('loopiter '):
+            k = int(key.split()[1]); nm = key.split()[2]
+            if k < 1 or k > len(loops): raise GenErr('%s: loop #%d not found' % (item.name, k))
+            lp = loops[k - 1][0]
+            if tk(lp)[1] != 'for': raise GenErr('%s: loop #%d is not a for loop' % (item.name, k))
+            q = lp + 1
+            while q < loops[k - 1][1] and not (tk(q)[0] == 'id' and tk(q)[1] == 'in'): q += 1
+            pos = tk(q)[3]
+            edits.append((pos, pos, G(key, ' %s: ' % nm)))
+        elif key.startswith('loop '):
             k = int(key.split()[1])
             if k < 1 or k > len(loops):
                 raise GenErr('%s: loop #%d not found (%d loops)' % (item.name, k, len(loops)))
             pos = tk(loops[k - 1][1])[2]
-            edits.append((pos, pos, '\n' + G(key, '\n' + gtxt.rstrip() + '\n') + '\n'))
+            edits.append((pos, pos, G(key, '\n' + gtxt.rstrip() + '\n')))
         elif key.startswith('before ') or key.startswith('after ') or key.startswith('loopend '):
             kind, n, anchor = key.split(' ', 2)
             n = int(n)
@@ -290,7 +299,7 @@ def extract_fn(item, opts, blocks, rewrites_log, as_stub=False):
                 ls = text.rfind('\n', 0, s0) + 1
                 # only whitespace may precede on the line, else insert right at the anchor
                 pos = ls if text[ls:s0].strip() == '' else s0
-                edits.append((pos, pos, G(key, '\n' + gtxt.rstrip() + '\n') + '\n'))
+                edits.append((pos, pos, G(key, '\n' + gtxt.rstrip() + '\n')))
             else:
                 # after the end of the statement containing the anchor: next ';' at relative depth 0
                 # (depth counted from anchor start)
@@ -306,9 +315,14 @@ def extract_fn(item, opts, blocks, rewrites_log, as_stub=False):
                         elif y[1] == ';' and depth == 0:
                             pos = y[3]; break
                     pp += 1
+                if pos is None and pp < bodye and tk(pp)[1] == '}':
+                    # anchor is the block's tail expression (no `;`): the ghost text supplies the `;`
+                    pos = tk(pp)[2]
+                    edits.append((pos, pos, G(key, ';\n' + gtxt.rstrip() + '\n')))
+                    continue
                 if pos is None:
                     raise GenErr('%s: no statement end after anchor %r' % (item.name, anchor))
-                edits.append((pos, pos, '\n' + G(key, '\n' + gtxt.rstrip() + '\n')))
+                edits.append((pos, pos, G(key, '\n' + gtxt.rstrip() + '\n')))
     end = blocks.get('tail', '')
     if end.strip():
         pos = tk(bodye)[2]
@@ -436,6 +450,8 @@ def parse_extract_blocks(lines, i):
                 cur = None
             elif d.split()[0] in ('sig', 'start', 'tail'):
                 cur = d.split()[0]
+            elif d.split()[0] == 'loopiter':
+                cur = 'loopiter %d %s' % (int(d.split()[1]), d.split()[2])
             elif d.split()[0] in ('loop', 'loopend'):
                 cur = '%s %d' % (d.split()[0], int(d.split()[1])) if d.split()[0] == 'loop' else 'loopend %d -' % int(d.split()[1])
             elif d.split()[0] in ('before', 'after'):
